@@ -27,7 +27,14 @@ META = dict(
          "callback, no Channel constructed, nothing put into the victim's channel map, no channel handler "
          "(_feed, _handle_request, ...) evaluated, nothing in the accept queue, and no REQUEST_SUCCESS / "
          "OPEN_CONFIRMATION / CHANNEL_SUCCESS / channel traffic sent by the victim. Authenticated control sessions "
-         "in every shard prove that each of these monitors does fire when the same messages are legitimate.",
+         "in every shard prove that each of these monitors does fire when the same messages are legitimate. "
+         "Round 3: (a) the same probes at every position INSIDE a key re-exchange that happens before authentication "
+         "(server-initiated through renegotiate_keys() or the packet threshold, and peer-initiated; before/after "
+         "the client's KEXINIT, before/after its NEWKEYS; positions produced by send hooks on the attacker tool and "
+         "confirmed on the victim's tap; an authenticated control at the same position makes the monitors fire); (b) "
+         "sequences of 8..12 events in which failed logins and connection-layer requests are mixed, the request "
+         "being the k-th event for every k, fenced and pipelined, including requests queued directly behind the "
+         "tenth failed login.",
     note="The victim may die on such messages (e.g. the empty _ensure_authed reply, unknown channel ids); dying "
          "refuses the request and is C38's subject, not judged here. One session per enumerated probe (+ up to two "
          "random follow-up probes while the victim lives).",
@@ -255,7 +262,7 @@ def reach_point(ctx, sess, point, rng):
     raise ValueError(point)
 
 
-def judge(ctx, sess, desc, pmark, since_n, control=False, prefix=None):
+def judge(ctx, sess, desc, pmark, since_n, control=False, prefix=None, context=""):
     """Evaluate everything the monitors saw since the first probe of this session."""
     v = sess.victim
     vmap = id(v._channels)
@@ -299,17 +306,17 @@ def judge(ctx, sess, desc, pmark, since_n, control=False, prefix=None):
                callbacks=[(c["name"], c["args"]) for c in cbs][:8], wrappers=[(e[0], e[2]) for e in mine][:12],
                victim_exception=repr(v.saved_exception))
     for c in cbs:
-        ctx.violation("pre-auth callback %s reached via message type %s" % (c["name"], trig(c["n"])),
+        ctx.violation("pre-auth callback %s reached via message type %s%s" % (c["name"], trig(c["n"]), context),
                       "the server consulted its application about a connection-layer request before authentication succeeded", wit)
     kinds = sorted(set(e[0] for e in mine))
     for k in kinds:
-        ctx.violation("pre-auth %s evaluated" % k,
+        ctx.violation("pre-auth %s evaluated%s" % (k, context),
                       "a channel object was created/registered/fed before authentication succeeded", wit)
     if len(v.server_accepts) > 0 or len(v._channels) > 0:
-        ctx.violation("pre-auth channel present in %s" % ("accept queue" if v.server_accepts else "channel map"),
+        ctx.violation("pre-auth channel present in %s%s" % ("accept queue" if v.server_accepts else "channel map", context),
                       "a channel exists on the server before authentication succeeded", wit)
     for o in positive:
-        ctx.violation("pre-auth positive reply %s" % FORBIDDEN_REPLIES[o["type"]],
+        ctx.violation("pre-auth positive reply %s%s" % (FORBIDDEN_REPLIES[o["type"]], context),
                       "the server answered a connection-layer message of an unauthenticated client with a non-refusal", wit)
         break
 
@@ -397,15 +404,21 @@ def rekey_cells():
     return [(i, p) for i in REKEY_INITIATORS for p in REKEY_POSITIONS if not (i == "peer" and p == "before_own_kexinit")]
 
 
-def window_probes(rng):
-    """Every global-request kind and every channel-open kind (the victim survives those), then one message of
-    another connection-layer type (which may end the transport: unknown channel)."""
+def window_probes(rng, channel_message_inside):
+    """(probes for the window, probe for after the exchange).  Window: every global-request kind and every
+    channel-open kind (the victim survives those) and a stray reply type; a channel message for a channel that was
+    never allocated (the victim may end the transport on it) is either the last message inside the window or is sent
+    after the exchange has completed, so that completed exchanges (deferred refusals flushed) are observed too."""
     probes = [(80, "wellformed", wellformed(rng, 80, vi)) for vi in range(len(GLOBAL_KINDS))]
     probes += [(90, "wellformed", wellformed(rng, 90, vi)) for vi in range(len(OPEN_KINDS))]
+    t = rng.choice([81, 82, 91, 92])
+    probes.append((t, "wellformed", wellformed(rng, t)))
     rng.shuffle(probes)
-    t = rng.choice([98, 98, 94, 93, 95, 96, 97, 99, 100, 91, 92, 81, 82])
-    probes.append((t, "wellformed", wellformed(rng, t, rng.randrange(len(REQUEST_KEYS)) if t == 98 else None)))
-    return probes
+    t = rng.choice([98, 98, 94, 94, 93, 95, 96, 97, 99, 100])
+    chan = (t, "wellformed", wellformed(rng, t, rng.randrange(len(REQUEST_KEYS)) if t == 98 else None))
+    if channel_message_inside:
+        return probes + [chan], None
+    return probes, chan
 
 
 def classify_position(sess, mark, n):
@@ -476,6 +489,11 @@ def run_rekey_window(ctx, rng, desc, control=False):
             ctx.inconclusive("re-key window: harness trouble inside the hook: %r" % (sess.ctl.errors[0],))
             return
         state = sess.wait_rekey(mark)
+        if state == "done" and desc.get("tail") is not None:
+            t, pk, body = desc["tail"]
+            seq, st = sess.step(t, body)
+            if seq is not None:
+                ctx.count("rekey_channel_message_after_completed_exchange")
         read_any = False
         for (t, seq, m0) in sent:
             e = sess.victim_read_seq(seq, m0) if seq is not None else None
@@ -494,7 +512,8 @@ def run_rekey_window(ctx, rng, desc, control=False):
         ctx.count(prefix + "rekey_exchange_" + state.replace("-", "_"))
         if not control:
             ctx.count("rekey_point_" + point)
-        judge(ctx, sess, desc, pmark, since_n, control, prefix=prefix if control else None)
+        judge(ctx, sess, desc, pmark, since_n, control, prefix=prefix if control else None,
+              context=" [inside a key re-exchange: %s]" % position.replace("_", " "))
         if control:
             ctx.count("rekey_control_sessions")
         else:
@@ -525,14 +544,16 @@ def run_rekey_stratum(ctx, rng, deadline):
                     continue
                 plan.append((point, initiator, position))
     shown = 0
+    nth = {}
     for i, (point, initiator, position) in enumerate(plan):
+        nth[(initiator, position)] = nth.get((initiator, position), 0) + 1
         if not ctx.mine(i):
             continue
         if time.time() > deadline:
             ctx.count("sessions_not_run_time_cap")
             continue
-        desc = dict(stratum="inside re-key", point=point, initiator=initiator, position=position,
-                    probes=window_probes(rng))
+        probes, tail = window_probes(rng, channel_message_inside=nth[(initiator, position)] % 2 == 0)
+        desc = dict(stratum="inside re-key", point=point, initiator=initiator, position=position, probes=probes, tail=tail)
         if shown < 1 and position == "before_own_kexinit":
             desc["sample"] = True
             shown += 1
@@ -545,7 +566,8 @@ def run_rekey_stratum(ctx, rng, deadline):
     for (initiator, position) in cells:
         survivable = position in ("before_own_kexinit", "after_own_newkeys")
         ctx.require("rekey_cell_%s_%s_probes_read" % (initiator, position), (16 if survivable else 2) * reps)
-    ctx.require("rekey_exchange_done", 8 * reps)
+    ctx.require("rekey_exchange_done", 5 * reps)
+    ctx.require("rekey_channel_message_after_completed_exchange", 5 * reps)
     ctx.require("rekey_control_sessions", 2)
     ctx.require("rekey_control_rekey_cell_server_api_before_own_kexinit_probes_read", 6)
     ctx.require("rekey_control_service_callbacks_seen", 4)
@@ -636,7 +658,7 @@ def run_counting(ctx, rng, desc):
                     ctx.count("conn_request_pipelined_directly_behind_tenth_failure")
                 if seq is not None and sess.victim_read_seq(seq, since_n) is not None:
                     ctx.count("conn_request_behind_tenth_failure_read_by_victim")
-        judge(ctx, sess, desc, pmark, since_n)
+        judge(ctx, sess, desc, pmark, since_n, context=" [request mixed with failed logins around the ten-failure limit]")
         ctx.case(("c15-count", repr(desc)), sample=desc if desc.get("sample") else None, nontrivial=read_any)
     except FenceTimeout as e:
         ctx.inconclusive("counting: fence timeout: %s" % e)
